@@ -1,38 +1,95 @@
 ----------------------------- MODULE TotalityTrace -----------------------------
-(* Trace specification for C12.  Per checked module / public value operation (tid):                  *)
-(*   Begin(nlines, linelens)   Diag(code, lineno, col, msglen)*   End    -- a check that returned     *)
-(*   Begin(..)  ...  Raised(exc)                                        -- a check that raised        *)
-(*   ValueOp(op, ok)                                                    -- Value API call returned?   *)
-(* The trace is accepted iff it is a behaviour of the Totality automaton: every Diag is WellFormed,   *)
-(* every Begin is closed by End, no Raised / failed ValueOp.                                          *)
-EXTENDS Totality, Json, IOUtils
+(* Trace specification for C12.  Per checked module (tid):                                                     *)
+(*   Begin(slice, lines, prog | layout + node)   Diag(code, haspos, lineno, col, msglen, ctx, caret, ...)*  End *)
+(*   Begin(..)  ...  Raised(exc)                                       -- a check that raised                   *)
+(* per pair of Value terms / (object, type) pair:                                                              *)
+(*   ValueOp(a, b, fails)   RtOp(o, a, fails)        fails = the public operations that raised                  *)
+(* The trace is accepted iff it is a behaviour of the Totality automaton: every Diag is WellFormed on the       *)
+(* position model (lines = the physical lines of the file as CPython counts them, with length in code points,  *)
+(* UTF-8 length and the pieces str.splitlines() cuts them into), its rendered context consists of lines of the *)
+(* file, every Begin is closed by End, nothing raised.  Observations inside a named deviation class of the     *)
+(* unchanged tree are reported as dev:<class>; observations that satisfy the property but differ from the      *)
+(* Impl model (ImplContext / ImplShow) as drift:<what>.                                                        *)
+EXTENDS Totality, TotalityValues, Json, IOUtils
 
 Obs == ndJsonDeserialize(IOEnv.TRACE_FILE)
 Codes == {Obs[1].codes[i] : i \in 1..Len(Obs[1].codes)}     \* first line: the registered error codes
-VARIABLES l, nlines, linelens
+VARIABLES l, file, slice, cprog, cnode, seen
 Say(tid, v) == PrintT(<<"VERDICT", tid, v>>)
+others == <<gvars, pvars, yvars, vvars, rvars>>
 
-TInit == l = 1 /\ GInit /\ LInit /\ nlines = 0 /\ linelens = << >>
+TInit == l = 1 /\ GInit /\ LInit /\ PInit /\ YInit /\ VInit /\ RInit
+         /\ file = << >> /\ slice = "none" /\ cprog = << >> /\ cnode = NoNode /\ seen = "no"
 
-THeader == Obs[l].event = "Codes" /\ UNCHANGED <<gvars, lvars, nlines, linelens>>
+IndexExc == "Internal error: IndexError('list index out of range')"
+
+THeader == Obs[l].event = "Codes" /\ UNCHANGED <<lvars, file, slice, cprog, cnode, seen>>
 TBegin ==
     /\ Obs[l].event = "Begin"
     /\ (IF life \in {"Start", "Done"} THEN TRUE ELSE Say(Obs[l].tid, "viol:PreviousCheckNotEnded"))
-    /\ life' = "Start" /\ ndiags' = 0 /\ nlines' = Obs[l].nlines /\ linelens' = Obs[l].linelens /\ UNCHANGED gvars
+    /\ life' = "Start" /\ ndiags' = 0 /\ slice' = Obs[l].slice
+    /\ file' = (IF Obs[l].same THEN file ELSE Obs[l].lines)       \* same = the module of the previous Begin, other configuration
+    /\ cprog' = (IF Obs[l].slice = "frag" THEN Obs[l].prog ELSE << >>)
+    /\ cnode' = (IF Obs[l].slice = "layout" THEN Obs[l].node ELSE NoNode)
+    /\ seen' = (IF Obs[l].same THEN seen ELSE "no")   \* diagnostics identical to recorded ones of the first configuration are not repeated
+
+Verdict(o) ==
+    LET f == IF slice = "frag" /\ o.frag >= 1 /\ o.frag <= Len(cprog) THEN cprog[o.frag] ELSE [kind |-> "none"]
+        impl == ImplContext(file, o.lineno, o.col)
+        r == ImplShow(file, cnode, TRUE)
+    IN IF o.code = "internal_error"
+       THEN IF Dev_EllipsisDetail(o) THEN "dev:on-error-default-detail-ellipsis"
+            ELSE IF Dev_SharedTypeOfMetaclass(o) THEN "dev:shared-type-of-metaclass-unbound-mro"
+            ELSE IF Dev_MatchValueNotLiteral(f, o) THEN "dev:match-value-not-literal-internal-error"
+            ELSE IF Dev_RecursiveStrAlias(f, o) THEN "dev:recursive-string-alias-recursion-error"
+            ELSE IF slice = "layout" /\ o.exc = IndexExc /\ Dev_ForwardRefPosition(cnode, r, file) /\ r.out = "raise"
+                 THEN "dev:forward-reference-relative-position"
+            ELSE "viol:InternalError"
+       ELSE IF ~(o.code \in Codes) \/ o.msglen <= 0 THEN "viol:IllFormedDiagnostic"
+       ELSE IF ~RefWellFormedPos(o, file)
+       THEN \* the reported position is the one a node has inside a separately parsed string of this module
+            IF o.haspos /\ o.origin = "fwd" THEN "dev:forward-reference-relative-position"
+            \* the reported column is the UTF-8 byte offset of a node of the file
+            ELSE IF o.origin \in {"file", "both"} /\ Dev_ByteColumn(o, file) THEN "dev:column-is-utf8-byte-offset"
+            ELSE "viol:IllFormedDiagnostic"
+       ELSE IF ~RefContextOK(o, file)
+       THEN IF Dev_SplitPieces(o, file) THEN "dev:context-lines-from-splitlines" ELSE "viol:ContextNotFromFile"
+       ELSE IF o.ctx # impl.ctx \/ o.caret # impl.caret THEN "drift:context"
+       ELSE IF slice = "layout" /\ o.marker /\ r.out = "diag" /\ (o.lineno # r.lineno \/ o.col # r.col) THEN "drift:position"
+       ELSE "ok"
+
 TDiag ==
     /\ Obs[l].event = "Diag"
     /\ LET o == Obs[l]
-           d == [code |-> o.code, lineno |-> o.lineno, col |-> o.col, msglen |-> o.msglen]
-       IN IF o.lineno \in 1..nlines /\ WellFormed(d, nlines, linelens, Codes) THEN TRUE
-          ELSE IF o.code = "internal_error" THEN Say(o.tid, "viol:InternalError")
-          ELSE Say(o.tid, "viol:IllFormedDiagnostic")
-    /\ life' = "Diags" /\ ndiags' = ndiags + 1 /\ UNCHANGED <<gvars, nlines, linelens>>
-TEnd == Obs[l].event = "End" /\ life' = "Done" /\ UNCHANGED <<gvars, ndiags, nlines, linelens>>
-TRaised == Obs[l].event = "Raised" /\ Say(Obs[l].tid, "viol:CheckRaised") /\ life' = "Done" /\ UNCHANGED <<gvars, ndiags, nlines, linelens>>
+           v == Verdict(o)
+       IN /\ (IF v = "ok" THEN TRUE ELSE Say(o.tid, v))
+          /\ seen' = (IF o.marker THEN "marker"
+                      ELSE IF o.code = "internal_error" /\ o.exc = IndexExc /\ seen = "no" THEN "raise" ELSE seen)
+    /\ life' = "Diags" /\ ndiags' = ndiags + 1 /\ UNCHANGED <<file, slice, cprog, cnode>>
+TEnd ==
+    /\ Obs[l].event = "End"
+    /\ (IF slice = "layout" /\ ~Obs[l].skipped
+        THEN LET r == ImplShow(file, cnode, TRUE)
+             IN IF r.out = "raise" /\ seen # "raise" THEN Say(Obs[l].tid, "drift:expected-raise-not-observed")
+                ELSE IF r.out = "diag" /\ seen # "marker" THEN Say(Obs[l].tid, "drift:marker-diagnostic-missing")
+                ELSE TRUE
+        ELSE TRUE)
+    /\ life' = "Done" /\ UNCHANGED <<ndiags, file, slice, cprog, cnode, seen>>
+TRaised == Obs[l].event = "Raised" /\ Say(Obs[l].tid, "viol:CheckRaised") /\ life' = "Done" /\ UNCHANGED <<ndiags, file, slice, cprog, cnode, seen>>
 TValueOp ==
     /\ Obs[l].event = "ValueOp"
-    /\ (IF Obs[l].ok THEN TRUE ELSE Say(Obs[l].tid, "viol:ValueOperationRaised"))
-    /\ UNCHANGED <<gvars, lvars, nlines, linelens>>
+    /\ LET o == Obs[l]
+       IN \A i \in 1..Len(o.fails) :
+             IF Dev_HashExceptionPropagates(o.a, o.b, o.fails[i].exc) THEN Say(o.tid, "dev:known-value-hash-exception-propagates")
+             ELSE Say(o.tid, "viol:ValueOperationRaised")
+    /\ UNCHANGED <<lvars, file, slice, cprog, cnode, seen>>
+TRtOp ==
+    /\ Obs[l].event = "RtOp"
+    /\ LET o == Obs[l]
+       IN \A i \in 1..Len(o.fails) :
+             IF Dev_HashExceptionPropagatesObj(o.o, o.fails[i].exc) THEN Say(o.tid, "dev:known-value-hash-exception-propagates")
+             ELSE Say(o.tid, "viol:RuntimeApiRaised")
+    /\ UNCHANGED <<lvars, file, slice, cprog, cnode, seen>>
 
-TNext == l <= Len(Obs) /\ (THeader \/ TBegin \/ TDiag \/ TEnd \/ TRaised \/ TValueOp) /\ l' = l + 1
+TNext == l <= Len(Obs) /\ (THeader \/ TBegin \/ TDiag \/ TEnd \/ TRaised \/ TValueOp \/ TRtOp) /\ l' = l + 1 /\ UNCHANGED others
 =============================================================================
